@@ -29,6 +29,7 @@ mod c07;
 mod c08;
 mod c10;
 mod c12;
+mod c13;
 mod c14;
 
 fn main() {
@@ -79,6 +80,7 @@ fn prop_fn(name: &str) -> Option<fn(&mut rep::Ctx)> {
         "c08" => c08::run,
         "c10" => c10::run,
         "c12" => c12::run,
+        "c13" => c13::run,
         "c14" => c14::run,
         _ => return None,
     })
